@@ -36,6 +36,12 @@ CLAIMED["C04"] = ("PARTIAL. linear_extrude, loft, cylinder, rotate_extrude (open
 CLAIMED["C05"] = ("PARTIAL. Same models as C04. Oracles on implementation meshes: extrusion/loft rings are the given profiles unchanged at z = 0 and z = height (exact), revolve ring k is the profile in the half-plane at k*degrees/segments with radius and height kept, sweep ring k is a rigid copy at path point k perpendicular to the chord between its neighbours, Polyhedron transforms move every point and leave faces untouched, linear-extrusion volume = area x height, every end cap is a tiling certificate of the ring it closes (in that ring's own plane) with the right winding. Theorems: see evidence.",
   "Real arithmetic; cap certificates for concave rings inherit C03's gap; per-ring twist amount is tied by the bit-exact correspondence with the model.",
   "Lean 4 model + theorems (partial) + Lean-executed placement/cap oracles + differential correspondence harness", "5/C05")
+CLAIMED["C14"] = ("For threaded_rod, tap, hex_bolt, hex_nut and external_cylinder_chamfer the model builds the centred part as translate([0,0,-H/2]) of the un-centred part (a syntactic equality of trees, theorems in the evidence) and the model's trees equal the crate's trees node for node and number for number; on every case the implementation's centred tree is compared token-exactly with translate([0,0,-H/2]) wrapped around its own un-centred tree.",
+  "Thread table regenerated from metric_thread.rs each run; mesh leaves are compared as data; H is length, head+length, nut height or cylinder height.",
+  "Lean 4 model with syntactic tree equality theorems + exact structural oracle + differential correspondence harness", "5/C14")
+CLAIMED["C16"] = ("The size-table lookup (next smaller listed size, M2 below) and the table facts (internal > external, pitch < diameter, chamfer size above the oversize the builders pass) are kernel-decided over the 56 rows regenerated from metric_thread.rs on every run; threaded_cylinder is modelled step by step (lead-in/out counters, profiles, 8-triangle strips, both hands) and equals the crate's mesh bit for bit, for table sizes through the public builders and for free proportions through the hook. Oracles on implementation meshes: closed/oriented/outward, starts at z = 0, every vertex between minor and major radius with minor = major - 2*(5/8)*(sqrt 3/2)*pitch, one pitch per revolution within the step-count rounding, hand.",
+  "Real arithmetic for the proportion theorems; radii/pitch/hand of the generated mesh are checked per run (tolerance 1e-9), the invariant proof of the step fold is listed in the evidence as far as it is closed.",
+  "Lean 4 model + decide +kernel over the regenerated thread table + Lean-executed oracles + differential correspondence harness", "5/C16")
 NOT_YET = {
 }
 ALL = ["C%02d" % i for i in range(1, 20)]
